@@ -1,9 +1,11 @@
 """Gateway.logic - the dispatcher: entry contracts for C01/C04/C05/C07/C08/C10/C14."""
+import z3
+
 from pyvc.contract import contract, forall, forall2, forall3, implies, same_dict
 from spec import api, wire
 
 from . import summaries
-from .inv import i_children, i_desired, i_nodes, i_ota, i_values, inv, inv_shape
+from .inv import i_children, i_desired, i_nodes, i_ota, i_queue, i_values, inv, inv_shape
 from .loops_sleep import LOOPS
 from .state import VERSIONS, make_gateway
 
@@ -54,6 +56,11 @@ def _setup(h):
 
     h.it.post_hooks[("mysensors", "Gateway.add_sensor")] = note_new_id
     data = h.sym("str", "data")
+    # the sender of the inbound line, as the term wire.fields(data)[0] evaluates to
+    from pyvc.core import SV, strlit
+    from pyvc.laws import py_int, py_rstrip, split_get
+
+    h.ctx.ghost["sender"] = SV("int", py_int(split_get(py_rstrip(data.term), strlit(";"), z3.IntVal(0))))
     return [gw, data], {}
 
 
@@ -109,5 +116,6 @@ class LogicC01:
         "inv.children": lambda old, self, data, result: i_children(self),
         "inv.values": lambda old, self, data, result: i_values(self),
         "inv.desired": lambda old, self, data, result: i_desired(self),
+        "inv.queue": lambda old, self, data, result: i_queue(self),
         "inv.ota": lambda old, self, data, result: i_ota(self),
     }
